@@ -99,6 +99,8 @@ def load_registry():
                     if "props" not in meta:
                         continue
                     hs.append(Harness(crate, os.path.relpath(p, os.path.join(kroot, crate)), m.group(3) or m.group(4), meta))
+    import e3
+    hs.extend(e3.harnesses())
     return hs
 
 
